@@ -761,6 +761,21 @@ func (w *qWorld) opSub(op Op) {
 	// trip to do so; here that is a quiescence point. (DESIGN.md, observations.)
 	synctest.Wait()
 	cl.Start()
+	if op.S == "raceclose" {
+		// the other consumers of this topic leave at the very moment this one
+		// subscribes (for an ephemeral topic: its deletion races the SUB)
+		for _, x := range w.cons {
+			if x != co && x.Topic == topic && x.Subscribed && !x.Dead {
+				w.rc.Logf("closing %s while %s subscribes", x.cl.Name, cl.Name)
+				x.cl.Close()
+				w.rc.Fault("conn_close")
+				w.consumerDied(x)
+				w.inBurst = true
+				w.burstOps = append(w.burstOps, Op{Kind: "close"})
+				w.rc.Probe("subscribe_racing_last_consumer_leaving")
+			}
+		}
+	}
 	cl.Cmd("SUB "+topic+" "+ch, nil)
 	f, ok := cl.WaitFrame(30*time.Second, isNonMsg)
 	if !ok || f.Type != frameResponse || string(f.Data) != "OK" {
@@ -768,9 +783,21 @@ func (w *qWorld) opSub(op Op) {
 		if !ok || f.Type == frameError {
 			co.Dead = true
 			co.DeadStep = w.epoch
+			if !ok {
+				// no answer (the connection was closed, e.g. by a channel deletion
+				// that caught it): the server side of the SUB may still be in its
+				// retry pause (100 ms) and create the topic/channel afterwards
+				cl.Close()
+				time.Sleep(150 * time.Millisecond)
+				synctest.Wait()
+				w.rc.Probe("subscribe_unanswered")
+			}
 			// a failed SUB may or may not have created the topic/channel
 			if c := w.chans[co.ck]; c == nil || !c.Exists {
 				w.channel(topic, ch).Uncertain = true
+			}
+			if t := w.topic(topic); !t.Exists {
+				t.ExistUnknown = true
 			}
 		}
 		return
